@@ -68,7 +68,7 @@ func init() {
 			c.load("lib/keystore")
 			c.ruleKeystore()
 			c.min("R-BOUNDS", 1)
-			c.min("R-CALLEE", 5)
+			c.min("R-CALLEE", 6)
 		})
 }
 
@@ -645,6 +645,15 @@ func (c *Ctx) ruleKeystore() {
 		})
 		c.ob("R-CALLEE", "gcmFromPassphrase:blake2b256->aes->gcm", g.Pos(), names["golang.org/x/crypto/blake2b.Sum256"] && names["crypto/aes.NewCipher"] && names["crypto/cipher.NewGCM"],
 			"the key is BLAKE2b-256(password), the cipher AES in GCM mode")
+		// the whole password, byte for byte: what is hashed is the parameter itself
+		whole := false
+		eachInstr(g, func(_ *ssa.BasicBlock, _ int, in ssa.Instruction) {
+			if call, ok := in.(*ssa.Call); ok && calleeName(&call.Call) == "golang.org/x/crypto/blake2b.Sum256" && len(g.Params) > 0 {
+				whole = call.Call.Args[0] == ssa.Value(g.Params[0])
+			}
+		})
+		c.ob("R-CALLEE", "gcmFromPassphrase:hashes-the-password-unchanged", g.Pos(), whole,
+			"the key must be the hash of the password exactly as given: trimming, folding or truncating it makes different passwords open the same key")
 	}
 	if e := c.fn(dir, "Encrypt"); e != nil {
 		var rf, seal *ssa.Call
